@@ -33,7 +33,7 @@ def int_range(ty):
 
 
 def is_slice_ref(ty):
-    return bool(re.match(r"^&(mut )?(\'\w+ )?\[[^;\]]+\]$", ty)) or ty in ("&str", "&mut str")
+    return bool(re.match(r"^(&(mut )?(\'\w+ )?|\*const |\*mut )\[[^;\]]+\]$", ty)) or ty in ("&str", "&mut str")
 
 
 def array_len(ty):
@@ -215,6 +215,15 @@ def place_var(pl):
     return ("v", l, proj)
 
 
+def discr_var(pl):
+    """variable holding the variant index of an enum place"""
+    l, proj = pl
+    for e in proj:
+        if e[0] not in ("deref", "f", "dc"):
+            return None
+    return ("v", l, proj + (("discr",),))
+
+
 def len_var(pl):
     l, proj = pl
     for e in proj:
@@ -231,11 +240,15 @@ def is_mem(v):
 
 
 class NumAnalysis:
-    def __init__(self, fn, prog=None, hyps=None, entry_hook=None, max_disj=MAX_DISJ, pure_calls=()):
+    def __init__(self, fn, prog=None, hyps=None, entry_hook=None, max_disj=MAX_DISJ, pure_calls=(), partition_discr=False, ret_summary=None):
         self.fn = fn
         self.prog = prog
         self.hyps = hyps or []
         self.entry_hook = entry_hook
+        # partition_discr: start from one entry state per combination of the variants of (at most 3) Option/Result/enum
+        # places reached from parameters whose discriminant the body tests - makes `usize::from(x.is_some())` exact per path
+        self.partition_discr = partition_discr
+        self.ret_summary = ret_summary  # optional callable(callee name) -> (lo, hi) of an integer return value, or None
         self.max_disj = max_disj
         self.pure_calls = tuple(pure_calls)
         self.obligations = {}  # (b, tag) -> dict
@@ -568,6 +581,8 @@ class NumAnalysis:
             src = None
             if "ref" in rv:
                 src = {"cp": rv["ref"]}
+            elif "rawptr" in rv:
+                src = {"cp": rv["rawptr"]}
             elif "use" in rv:
                 src = rv["use"]
             elif "cast" in rv:  # unsize &[T;N] -> &[T]
@@ -641,6 +656,10 @@ class NumAnalysis:
                 return a
             return self.top(dty)
         if "discr" in rv:
+            d = discr_var(mk_place(rv["discr"]))
+            if d is not None:
+                n = max([int(k) for k in (rv.get("variants") or {}).keys()] or [0])
+                return dict(lo=max(st.z.lo(d), 0), hi=min(st.z.hi(d), n), rel=[(d, 0, 0)])
             return self.top(dty)
         return self.top(dty)
 
@@ -783,12 +802,37 @@ class NumAnalysis:
             self.oblige(b, "call", "split_at:mid<=len", hi <= 0, "mid %s <= len %s" % (fmt_itv(m), fmt_itv(a)))
             self.kill_tree(st, dpl[0], dpl[1])
             return
+        m_is = re.search(r"(?:Option::<T>::(is_some|is_none)|Result::<T, E>::(is_ok|is_err))$", callee)
+        if m_is and len(args) == 1 and dty == "bool":
+            self.kill_tree(st, dpl[0], dpl[1])
+            pj = args[0].get("mv") or args[0].get("cp")
+            root = self.ref_root_deep(mk_place(pj)) if pj is not None else None
+            d = discr_var(root) if root is not None else None
+            dv = place_var(dpl)
+            if d is not None and dv is not None:
+                which = m_is.group(1) or m_is.group(2)
+                # Option: None=0 Some=1 ; Result: Ok=0 Err=1
+                want = {"is_some": 1, "is_none": 0, "is_ok": 0, "is_err": 1}[which]
+                st.z.set_interval(d, max(st.z.lo(d), 0), min(st.z.hi(d), 1))
+                st.bools[dv] = ("Eq", d, ("c", want))
+            return
         # integer conversions
         if re.search(r"impl std::convert::From<\w+> for \w+>::from$", callee) and len(args) == 1:
             if int_range(dty) is not None:
                 aty = self.op_ty(args[0])
                 if aty == "bool":
-                    set_dest_int(dict(lo=0, hi=1, rel=[]))
+                    pj = args[0].get("mv") or args[0].get("cp")
+                    bv = place_var(mk_place(pj)) if pj is not None else None
+                    val = dict(lo=0, hi=1, rel=[])
+                    if bv in st.bools:
+                        op, a_, b_ = st.bools[bv]
+                        if op == "Eq" and isinstance(b_, tuple) and b_[0] == "c" and isinstance(a_, tuple) and a_[0] == "v":
+                            lo_, hi_ = st.z.lo(a_), st.z.hi(a_)
+                            if b_[1] == 1 and lo_ >= 0 and hi_ <= 1:
+                                val = dict(lo=lo_, hi=hi_, rel=[(a_, 0, 0)])
+                            elif lo_ == hi_:
+                                val = dict(lo=int(lo_ == b_[1]), hi=int(lo_ == b_[1]), rel=[(Z, int(lo_ == b_[1]), int(lo_ == b_[1]))])
+                    set_dest_int(val)
                 elif int_range(aty) is not None:
                     set_dest_int(self.ev_operand(st, args[0]))
                 else:
@@ -840,7 +884,12 @@ class NumAnalysis:
         # everything else: destination unknown, memory possibly changed
         self.kill_tree(st, dpl[0], dpl[1])
         if int_range(dty) is not None:
-            set_dest_int(self.top(dty))
+            rs = self.ret_summary(callee) if self.ret_summary is not None else None
+            if rs is not None:
+                r = int_range(dty)
+                set_dest_int(dict(lo=max(rs[0], r[0]), hi=min(rs[1], r[1]), rel=[]))
+            else:
+                set_dest_int(self.top(dty))
         elif is_slice_ref(dty):
             set_dest_len(self.result_len(st, c))
         if not any(callee.startswith(p) for p in PURE_PREFIXES + self.pure_calls):
@@ -872,7 +921,7 @@ class NumAnalysis:
             a = c["args"][0]
             pj = a.get("mv") or a.get("cp")
             if pj is not None:
-                root = self.ref_root(mk_place(pj))
+                root = self.ref_root_deep(mk_place(pj))
                 if root is not None:
                     v = ("mlen", root[0], root[1])
                     return dict(lo=max(0, st.z.lo(v)), hi=min(LEN_MAX, st.z.hi(v)), rel=[(v, 0, 0)])
@@ -923,6 +972,12 @@ class NumAnalysis:
                     r = mk_place(s["rv"]["ref"])
                     if all(e[0] in ("deref", "f", "dc") for e in r[1]):
                         return r
+                if "a" in s and mk_place(s["a"]) == (l, ()) and "use" in s["rv"] and ("cp" in s["rv"]["use"] or "mv" in s["rv"]["use"]):
+                    # `_x = copy P` where P holds a reference (a captured `&T` in a closure environment): _x points to *P
+                    pj = s["rv"]["use"].get("cp") or s["rv"]["use"].get("mv")
+                    r = mk_place(pj)
+                    if r[1] and self.place_ty(pj).startswith("&") and all(e[0] in ("deref", "f", "dc") for e in r[1]):
+                        return (r[0], r[1] + (("deref",),))
         return None
 
     def _freeze(self, a):
@@ -999,6 +1054,48 @@ class NumAnalysis:
             self.entry_hook(self, st)
         return st
 
+    def _entry_states(self):
+        st0 = self.init_state()
+        if not self.partition_discr:
+            return [st0]
+        cands = []
+        fn = self.fn
+        for blk in fn.blocks:
+            if blk.cleanup:
+                continue
+            for s in blk.stmts:
+                if "a" in s and "discr" in s["rv"]:
+                    pl = mk_place(s["rv"]["discr"])
+                    n = max([int(k) for k in (s["rv"].get("variants") or {}).keys()] or [0])
+                    cands.append((pl, n))
+            t = blk.term
+            if "call" in t and re.search(r"(?:Option::<T>::(is_some|is_none)|Result::<T, E>::(is_ok|is_err))$", t["call"].get("callee") or "") and t["call"]["args"]:
+                pj = t["call"]["args"][0].get("mv") or t["call"]["args"][0].get("cp")
+                root = self.ref_root_deep(mk_place(pj)) if pj is not None else None
+                if root is not None:
+                    cands.append((root, 1))
+        chosen = []
+        for pl, n in cands:
+            if not (1 <= pl[0] <= fn.argc) or not any(e == ("deref",) for e in pl[1]) and not pl[1]:
+                continue
+            d = discr_var(pl)
+            if d is None or n > 3 or any(d == c[0] for c in chosen):
+                continue
+            chosen.append((d, n))
+            if len(chosen) == 3:
+                break
+        sts = [st0]
+        for d, n in chosen:
+            nxt = []
+            for st in sts:
+                for v in range(n + 1):
+                    s2 = st.copy()
+                    s2.z.set_interval(d, v, v)
+                    if not s2.z.bottom:
+                        nxt.append(s2)
+            sts = nxt
+        return sts
+
     def _cap(self, sts):
         # dedupe (cheap signature first, then mutual entailment)
         buckets = {}
@@ -1043,7 +1140,7 @@ class NumAnalysis:
     def _run(self):
         fn = self.fn
         heads = {h for (_, h) in fn.back_edges()}
-        entry = {0: [self.init_state()]}
+        entry = {0: self._entry_states()}
         work = [0]
         while work:
             b = work.pop(0)
